@@ -80,7 +80,7 @@ def lastLe (mapIdx : Nat) : List DNode → Nat → Option Nat → Option Nat
 def insertIdx (ch : List DNode) (mapIdx : Nat) : Nat :=
   match lastLe mapIdx ch 0 none with
   | some i => i + 1
-  | none => ch.length
+  | none => 0
 
 /-- an ancestor of the open loop: its own map node and the children left / right of the open child -/
 structure Frame where
